@@ -55,11 +55,12 @@ SENSITIVE = {
 
 def gen_focused(rng, cfg):
     """One snippet, two settings that matter for it, alternated across calls, processes and kills."""
-    si = rng.choice(sorted(SENSITIVE))
+    si = rng.choice(sorted(SENSITIVE) + [2, 4])
     s1, s2 = rng.sample(SENSITIVE[si], 2)
-    if si in (2, 4) and rng.random() < 0.5:
+    if si in (2, 4) and rng.random() < 0.6:
         # the language level handed over in two different ways / two different levels through the directives dict
-        lv = rng.sample([2, 3, "3str"], 2)
+        lv = [2, rng.choice([3, "3str"])]
+        rng.shuffle(lv)
         var = SENSITIVE[si][0][2]
         s1, s2 = rng.choice([(({"language_level": lv[0]}, None, var), ({"language_level": lv[1]}, None, var)),
                              (({"language_level": lv[0]}, None, var), (None, lv[1], var))])
